@@ -153,6 +153,11 @@ class CubeStub:
         raise Unsupported("DataArray indexing form")
 
 
+class CondRed:
+    def __init__(self, cond, a, b):
+        self.cond, self.a, self.b = cond, a, b
+
+
 class Window:
     def __init__(self, cube, dim, lo, hi, step, attrs=None, reduced=None, expanded=None):
         self.cube, self.dim, self.lo, self.hi, self.step = cube, dim, lo, hi, step
@@ -164,6 +169,14 @@ class Window:
             setattr(w, k, v)
         return w
 
+    def pysym_merge(self, it, c, other):
+        """Two results of the same slice that differ only in how they were reduced (a branch in the accessor)."""
+        if not isinstance(other, Window) or self.cube is not other.cube or self.dim != other.dim or self.step != other.step \
+                or not (V.same(self.lo, other.lo) and V.same(self.hi, other.hi)) or self.attrs is not other.attrs \
+                or self.expanded != other.expanded:
+            return None
+        return self._copy(reduced=CondRed(c, self.reduced, other.reduced))
+
     def pysym_getattr(self, it, st, attr):
         if attr == "assign_attrs":
             return NativeBound(lambda it, st, selfv, d=None, **kw: self._copy(attrs=dict(d or {}, **kw)), self)
@@ -173,6 +186,12 @@ class Window:
             return NativeBound(red, self)
         if attr == "expand_dims":
             return NativeBound(lambda it, st, selfv, **kw: self._copy(expanded=kw), self)
+        if attr in ("squeeze", "isel", "sum", "mean", "max", "min", "fillna", "where", "astype", "copy", "transpose"):
+            # any other way of producing the result than reduce(func, dim): recorded, and the result no longer "describes" the
+            # NaN-skipping reduction of the window (the replayer decides with NaN pixels)
+            def other(it, st, selfv, *a, **kw):
+                return self._copy(reduced={"func": f"<{attr}>", "dim": (a[0] if a else kw.get("dim")), "keep_attrs": None, "via": attr})
+            return NativeBound(other, self)
         raise Unsupported(f"window.{attr}")
 
 
@@ -213,8 +232,24 @@ def worker(w, cfg):
     cube = CubeStub((dim, "y", "x") if cfg.get("lead", True) else ("y", "x", dim), dim, index)
     cls = it.get_function("hdc.algo.accessors", "IterativeAggregation")
     cls.link_bases(it)
-    inst = Instance(cls)
-    inst.fields["_obj"] = cube
+    try:
+        inst = it.instantiate(State(), cls, [cube], {})      # runs __init__ (instance state of the accessor)
+    except Unsupported:
+        inst = Instance(cls)
+        inst.fields["_obj"] = cube
+    if "_obj" not in inst.fields:
+        inst.fields["_obj"] = cube
+    old_labels = None
+    if cfg.get("history"):
+        # a history on ONE object: an earlier aggregation with other labels on the axis, then the axis is relabelled in place
+        # (xarray keeps the accessor instance of a DataArray) and the call under test follows
+        old_labels = [z3.Int(f"old{i}") for i in range(L)]
+        assume += [old_labels[i] < old_labels[i + 1] for i in range(L - 1)]
+        cube.index = IndexStub(old_labels)
+        st0 = State()
+        it.call_function(st0, cls.methods[which], [inst], {"n": None, "dim": dim, "begin": None, "end": None, "method": None})
+        cube.index = index
+        it.obligations[:] = []
     st = State()
     it.call_function(st, cls.methods[which], [inst], {"n": n, "dim": dim, "begin": b, "end": e, "method": meth})
     w.res.encoded.update(it.encoded)
@@ -245,7 +280,8 @@ def worker(w, cfg):
     def conc(m):
         return {"L": L, "labels": [C.model_value(m, x) for x in labels], "n": C.model_value(m, n) if has_n else None,
                 "begin": C.model_value(m, b) if has_b else None, "end": C.model_value(m, e) if has_e else None,
-                "method": meth, "which": which, "dim": dim, "lead": cfg.get("lead", True)}
+                "method": meth, "which": which, "dim": dim, "lead": cfg.get("lead", True),
+                "old_labels": [C.model_value(m, x) for x in old_labels] if old_labels else None}
     # unlocatable label => ValueError (and nothing yielded)
     w.discharge("iteragg.unlocatable_raises", assume + [z3.Not(located)], raised_ve, lemmas=lem, concretize=conc,
                 known_preds={}, sample=False)
@@ -282,9 +318,13 @@ def worker(w, cfg):
         if want is None:
             props.append(z3.BoolVal(y.reduced is None and y.expanded is None))
         else:
-            r = y.reduced or {}
-            f = r.get("func")
-            props.append(z3.BoolVal(isinstance(f, LibRef) and f.name == want and r.get("dim") == dim and r.get("keep_attrs") is True))
+            def red_ok(r):
+                if isinstance(r, CondRed):
+                    return z3.If(V.to_z3(r.cond), red_ok(r.a), red_ok(r.b))
+                r = r or {}
+                f = r.get("func")
+                return z3.BoolVal(isinstance(f, LibRef) and f.name == want and r.get("dim") == dim and r.get("keep_attrs") is True)
+            props.append(red_ok(y.reduced))
             if dim == "time":
                 ex = y.expanded or {}
                 tv = ex.get("time")
@@ -321,6 +361,11 @@ def configs(tier):
                         dim = "time" if (L + has_e) % 2 == 0 or which == "sum" else "band"
                         cf.append({"L": L, "method": meth, "begin": has_b, "end": has_e, "n": has_n, "which": which, "dim": dim,
                                    "lead": (L + has_b + has_n) % 2 == 0})
+    # histories: the same object used before with other labels
+    for L in (2, 3):
+        for meth in (None, "ffill"):
+            cf.append({"L": L, "method": meth, "begin": True, "end": True, "n": True, "which": "sum", "dim": "time", "lead": True, "history": True})
+            cf.append({"L": L, "method": meth, "begin": True, "end": False, "n": False, "which": "full", "dim": "band", "lead": False, "history": True})
     if tier == "thorough":
         extra = []
         for c in cf:
